@@ -27,9 +27,50 @@ type Str struct {
 	Args []*smt.Term // arguments of Fmt
 	Arr  *smt.Term   // non-nil: symbolic string (Array BV64 BV8)
 	Len  *smt.Term
+	// Bs non-nil: a string of concrete length whose bytes are terms (BV8);
+	// kept normalised: a string whose bytes are all constants is concrete.
+	Bs []*smt.Term
 }
 
-func (s Str) Concrete() bool { return s.Fmt == "" && s.Arr == nil }
+func (s Str) Concrete() bool { return s.Fmt == "" && s.Arr == nil && s.Bs == nil }
+
+// MkBytesStr builds a string from byte terms.
+func MkBytesStr(bs []*smt.Term) Str {
+	all := true
+	for _, b := range bs {
+		if _, ok := b.Uint64(); !ok {
+			all = false
+			break
+		}
+	}
+	if all {
+		raw := make([]byte, len(bs))
+		for i, b := range bs {
+			k, _ := b.Uint64()
+			raw[i] = byte(k)
+		}
+		return Str{S: string(raw)}
+	}
+	return Str{Bs: append([]*smt.Term{}, bs...)}
+}
+
+// byteTerms returns the bytes of a concrete or byte-term string.
+func (s Str) byteTerms() ([]*smt.Term, bool) {
+	if s.Bs != nil {
+		return s.Bs, true
+	}
+	if s.Concrete() {
+		out := make([]*smt.Term, len(s.S))
+		for i := 0; i < len(s.S); i++ {
+			out[i] = smt.BVU(uint64(s.S[i]), 8)
+		}
+		return out, true
+	}
+	return nil, false
+}
+
+// ByteTerms is byteTerms for other packages.
+func (s Str) ByteTerms() ([]*smt.Term, bool) { return s.byteTerms() }
 
 // PathElem addresses a component of a heap value.
 type PathElem struct {
@@ -109,6 +150,7 @@ type iterState struct {
 	Keys []Val
 	Vals []Val
 	Str  string
+	Bs   []*smt.Term
 	IsS  bool
 	Pos  int
 }
@@ -293,8 +335,13 @@ func SameVal(a, b Val) bool {
 		return ok && x == y
 	case Str:
 		y, ok := b.(Str)
-		if !ok || x.S != y.S || x.Fmt != y.Fmt || x.Arr != y.Arr || x.Len != y.Len || len(x.Args) != len(y.Args) {
+		if !ok || x.S != y.S || x.Fmt != y.Fmt || x.Arr != y.Arr || x.Len != y.Len || len(x.Args) != len(y.Args) || len(x.Bs) != len(y.Bs) {
 			return false
+		}
+		for i := range x.Bs {
+			if x.Bs[i] != y.Bs[i] {
+				return false
+			}
 		}
 		for i := range x.Args {
 			if x.Args[i] != y.Args[i] {
